@@ -1072,6 +1072,35 @@ def rule_weighted_fidelity(ctx: Ctx) -> None:
                      f"Infidelity.evaluate sums `{short(c)}` over the branches of the mixture: that is the overlap |<t|psi_i>|, not the fidelity "
                      f"|<t|psi_i>|^2 — a branch with overlap 1/sqrt2 contributes 0.707 p_i instead of 0.5 p_i", func="Infidelity.evaluate",
                      construct="Infidelity.evaluate: branch overlap not squared")
+    # every walk over the branches that feeds the fidelity takes F(target, branch) of each branch: a branch is in general neither equal nor
+    # orthogonal to the target (an imperfect circuit scored under noise), so selecting / counting branches is not the fidelity
+    fid_names = {a.targets[0].id for a in ast.walk(fn) if isinstance(a, ast.Assign) and len(a.targets) == 1 and isinstance(a.targets[0], ast.Name)
+                 and any(isinstance(x, ast.Call) and (call_name(x) or "").split(".")[-1] == "fidelity" for x in ast.walk(a.value))}
+    for g_owner in [x for x in ast.walk(fn) if isinstance(x, (ast.ListComp, ast.GeneratorExp, ast.For))]:
+        gens = g_owner.generators if not isinstance(g_owner, ast.For) else [g_owner]
+        if not any(is_mixture(g.iter) for g in gens):
+            continue
+        # does this walk feed a fidelity value?  (assigned to / accumulated into the name that also holds backend fidelities, or summed)
+        feeds = False
+        q = g_owner
+        while q is not None and q is not fn:
+            if isinstance(q, (ast.Assign, ast.AugAssign)):
+                tg = q.targets[0] if isinstance(q, ast.Assign) else q.target
+                if isinstance(tg, ast.Name) and tg.id in fid_names:
+                    feeds = True
+            q = parent(q)
+        if isinstance(g_owner, ast.For):
+            feeds = feeds or any(isinstance(a, ast.AugAssign) and isinstance(a.target, ast.Name) and a.target.id in fid_names for a in ast.walk(g_owner))
+        if not feeds:
+            continue
+        has_f = any(isinstance(x, ast.Call) and (call_name(x) or "").split(".")[-1] in ("fidelity", "inner_product") for x in ast.walk(g_owner))
+        if not has_f:
+            n += 1
+            elt = g_owner.elt if not isinstance(g_owner, ast.For) else g_owner
+            ctx.fail("weight.fidelity", m, g_owner,
+                     f"Infidelity.evaluate walks the branches of the mixture and takes `{short(elt, 60)}` per branch instead of p_i * F(target, branch_i): "
+                     f"a branch that is neither equal nor orthogonal to the target (target Bell, branch |00>: F = 1/2) is then counted as 0 or 1",
+                     func="Infidelity.evaluate", construct="Infidelity.evaluate: branch contribution is not p_i * F(target, branch)")
     if n == 0:
         raise AnalysisError("Infidelity.evaluate: no per-branch stabilizer fidelity found")
 
